@@ -462,6 +462,189 @@ func emitRecord(emit func(Sx), b []byte, expect int) {
 	emit(L(I(0), B(b), Bool(verifyBit(b)), I(int64(expect))))
 }
 
+// ---- key-order stress: canonical and non-canonical key sequences over boundary keys,
+// every one correctly signed by the owner, so canonicity is the ONLY reason to reject ----
+
+var boundaryKeys = []string{
+	"", "\x00", "\x00\x00", "\x01", "\x7f", "\x80", "\xff", "\xff\xff", "\xc3\x28", "\xe2\x82",
+	"a", "aa", "ab", "abc", "b", "i", "ic", "id\x00", "ida", "ie", "s", "secp256k0", "secp256k1\x00", "secp256k2", "z",
+	strings.Repeat("k", 55), strings.Repeat("k", 56), strings.Repeat("k", 57), strings.Repeat("\x00", 56), strings.Repeat("\xff", 60),
+}
+
+func basePairs(key *ecdsa.PrivateKey) []kv {
+	return []kv{{"id", mustEnc("v4")}, {"secp256k1", mustEnc(crypto.CompressPubkey(&key.PublicKey))}}
+}
+
+func signedRecord(key *ecdsa.PrivateKey, seq interface{}, pairs []kv) []byte {
+	c := buildContent(seq, pairs)
+	return buildRecord(signContent(key, c), c)
+}
+
+func strictlySorted(p []kv) bool {
+	for i := 1; i < len(p); i++ {
+		if p[i-1].k >= p[i].k {
+			return false
+		}
+	}
+	return true
+}
+
+// emit a signed record with exactly this key sequence; the expectation follows from
+// the definition of canonical (strictly ascending keys, <= 300 bytes), not from the code
+func emitSigned(emit func(Sx), key *ecdsa.PrivateKey, seq uint64, pairs []kv) {
+	b := signedRecord(key, seq, pairs)
+	expect, hasID, hasKey := 0, false, false
+	for _, p := range pairs {
+		hasID = hasID || p.k == "id"
+		hasKey = hasKey || p.k == "secp256k1"
+	}
+	if strictlySorted(pairs) && len(b) <= 300 && hasID && hasKey {
+		expect = 1
+	}
+	emitRecord(emit, b, expect)
+}
+
+func smallVal(i int) []byte { return []byte{byte(1 + i%0x7f)} }
+
+// all order violations of one sorted pair list: duplicate at every position (same and
+// different value, twice and three times), adjacent swap at every position, rotation
+func violations(emit func(Sx), key *ecdsa.PrivateKey, seq uint64, sorted []kv) {
+	emitSigned(emit, key, seq, sorted)
+	for i := range sorted {
+		for _, v := range [][]byte{sorted[i].v, smallVal(i + 40)} {
+			q := append(append(append([]kv{}, sorted[:i+1]...), kv{sorted[i].k, v}), sorted[i+1:]...)
+			emitSigned(emit, key, seq, q)
+		}
+		q3 := append(append(append([]kv{}, sorted[:i+1]...), kv{sorted[i].k, smallVal(i)}, kv{sorted[i].k, smallVal(i + 1)}), sorted[i+1:]...)
+		emitSigned(emit, key, seq, q3)
+		if i+1 < len(sorted) {
+			q := append([]kv{}, sorted...)
+			q[i], q[i+1] = q[i+1], q[i]
+			emitSigned(emit, key, seq, q)
+		}
+	}
+	if len(sorted) >= 2 {
+		emitSigned(emit, key, seq, append(append([]kv{}, sorted[1:]...), sorted[0])) // first key moved last
+		emitSigned(emit, key, seq, append([]kv{sorted[len(sorted)-1]}, sorted[:len(sorted)-1]...))
+	}
+}
+
+// deterministic part (same for every seed): every boundary key alone and doubled next to
+// id/secp256k1, every adjacent pair of boundary keys in both orders
+func genKeyOrderFixed(emit func(Sx)) {
+	key, err := crypto.ToECDSA(bytes.Repeat([]byte{0x45}, 32))
+	if err != nil {
+		panic("hxlib: fixed key")
+	}
+	for i, k := range boundaryKeys {
+		p := append(basePairs(key), kv{k, smallVal(i)})
+		sortPairs(p)
+		violations(emit, key, uint64(i), p)
+	}
+	ks := append([]string{}, boundaryKeys...)
+	sort.Strings(ks)
+	for i := 0; i+1 < len(ks); i++ {
+		if len(ks[i])+len(ks[i+1]) > 100 {
+			continue
+		}
+		p := append(basePairs(key), kv{ks[i], smallVal(i)}, kv{ks[i+1], smallVal(i + 1)})
+		sortPairs(p)
+		violations(emit, key, 1, p)
+	}
+	// the empty key first, in the middle of nothing else, and many times
+	for n := 2; n <= 5; n++ {
+		var p []kv
+		for j := 0; j < n; j++ {
+			p = append(p, kv{"", smallVal(j)})
+		}
+		emitSigned(emit, key, 7, append(p, basePairs(key)...))
+		emitSigned(emit, key, 7, p) // without id/secp256k1: rejected at decode already
+	}
+	// non-string keys (a list where a key is expected), signed
+	for _, rawKey := range [][]byte{{0xc0}, {0xc1, 0x61}, {0xc2, 0x61, 0x62}} {
+		for pos := 0; pos <= 2; pos++ {
+			base := basePairs(key)
+			c := []interface{}{uint64(3)}
+			for j := 0; j <= len(base); j++ {
+				if j == pos {
+					c = append(c, rlp.RawValue(rawKey), rlp.RawValue(smallVal(j)))
+				}
+				if j < len(base) {
+					c = append(c, base[j].k, rlp.RawValue(base[j].v))
+				}
+			}
+			emitRecord(emit, buildRecord(signContent(key, c), c), 0)
+		}
+	}
+	// odd number of k/v items at every position's worth of length, and non-canonical seq
+	for n := 0; n <= 2; n++ {
+		base := basePairs(key)
+		c := buildContent(uint64(9), base[:n])
+		c = append(c, "zz")
+		emitRecord(emit, buildRecord(signContent(key, c), c), 0)
+	}
+	for _, raw := range [][]byte{{0x81, 0x00}, {0x81, 0x7f}, {0x82, 0x00, 0x01}, {0x00}, {0xc0}, {0x89, 1, 2, 3, 4, 5, 6, 7, 8, 9}} {
+		c := buildContent(rlp.RawValue(raw), basePairs(key))
+		emitRecord(emit, buildRecord(signContent(key, c), c), 0)
+	}
+}
+
+// random part: random subsets of boundary and random keys, one violation at a random
+// position (first / middle / last are all reachable) or none
+func genKeyOrder(r *Rng, n int, emit func(Sx)) {
+	for i := 0; i < n; i++ {
+		key := genKey(r)
+		m := map[string][]byte{}
+		for _, p := range basePairs(key) {
+			if !r.Chance(1, 10) {
+				m[p.k] = p.v
+			}
+		}
+		cnt := r.Range(1, 5)
+		budget := 120
+		for j := 0; j < cnt; j++ {
+			k := boundaryKeys[r.Intn(len(boundaryKeys))]
+			if r.Chance(1, 4) {
+				k = randKeyName(r)
+			}
+			if _, dup := m[k]; dup || len(k) > budget || k == "id" || k == "secp256k1" {
+				continue
+			}
+			budget -= len(k) + 2
+			m[k] = smallVal(r.Intn(200))
+		}
+		var p []kv
+		for k, v := range m {
+			p = append(p, kv{k, v})
+		}
+		sortPairs(p)
+		seq := seqEdges[r.Intn(len(seqEdges))]
+		if len(p) == 0 {
+			continue
+		}
+		pos := []int{0, len(p) - 1, len(p) / 2, r.Intn(len(p))}[r.Intn(4)]
+		switch r.Intn(5) {
+		case 0:
+		case 1, 2: // duplicate at pos
+			v := p[pos].v
+			if r.Bool() {
+				v = smallVal(r.Intn(200))
+			}
+			p = append(append(append([]kv{}, p[:pos+1]...), kv{p[pos].k, v}), p[pos+1:]...)
+		case 3: // adjacent swap at pos
+			if pos+1 < len(p) {
+				p[pos], p[pos+1] = p[pos+1], p[pos]
+			} else if pos > 0 {
+				p[pos], p[pos-1] = p[pos-1], p[pos]
+			}
+		default: // move one key to another place
+			a, b := r.Intn(len(p)), r.Intn(len(p))
+			p[a], p[b] = p[b], p[a]
+		}
+		emitSigned(emit, key, seq, p)
+	}
+}
+
 func genRecords(r *Rng, n int, emit func(Sx)) {
 	for i := 0; i < n; i++ {
 		sp := genSpec(r)
@@ -1314,6 +1497,8 @@ func gen(r *Rng, tier string, emit func(Sx)) {
 	if tier == "thorough" {
 		nrec, nhdr, nsess, nops = 40000, 15000, 3000, 60
 	}
+	genKeyOrderFixed(emit)
+	genKeyOrder(r, nrec/4, emit)
 	genRecords(r, nrec, emit)
 	genHeaders(r, nhdr, emit)
 	var sets []nodeSet
@@ -1328,7 +1513,7 @@ func gen(r *Rng, tier string, emit func(Sx)) {
 func main() {
 	Main(Family{
 		ID: "C45",
-		Rule: "records: random key sets (id, secp256k1, ip, tcp, udp, unknown keys, values of random sizes and shapes, padding to 290..308 bytes, seq boundary values) signed with real keys (own builder and enode.SignV4) and 16 mutation classes (unsorted, duplicate, non-canonical seq, trailing bytes, odd element count, oversized, wrong signature, truncation, bit flips, wrong scheme/key entries, broken framing, random bytes); " +
+		Rule: "records: random key sets (id, secp256k1, ip, tcp, udp, unknown keys, values of random sizes and shapes, padding to 290..308 bytes, seq boundary values) signed with real keys (own builder and enode.SignV4) and 16 mutation classes plus a key-order stress stream (every boundary key: empty, single bytes, prefixes of each other, 55/56/57-byte and non-UTF8 keys; duplicates and adjacent swaps at every position, each record correctly signed by its owner so that canonicity is the only reason to reject; list-typed keys, odd element counts, non-canonical seq) (unsorted, duplicate, non-canonical seq, trailing bytes, odd element count, oversized, wrong signature, truncation, bit flips, wrong scheme/key entries, broken framing, random bytes); " +
 			"v5 header layer: structured unmasked packets of the three kinds with mutated protocol id / version / flag / authsize / lengths, plus random bytes, decoded by a fresh codec; " +
 			"v5 session layer: three real codecs (fixed clock) running scripts of honest establishments (random packet, WHOAREYOU, handshake, traffic) with losses, restarts, replays of old packets, deliveries to the wrong node / from the wrong address and byte tampering in every packet region. " +
 			"Non-trivial: a record that decodes (or a record input > 40 bytes), a header case of >= 63 bytes, a session script in which at least one message was accepted.",
